@@ -1303,11 +1303,18 @@ class Trust(Packet):
 
     def parse(self, packet):
         super(Trust, self).parse(packet)
-        # self.trustlevel = packet[0] & 0x1f
-        t = self.bytes_to_int(packet[:2])
-        del packet[:2]
+        # trust packets are implementation-defined (RFC 4880 5.10): consume exactly the body announced by the
+        # header, and keep the level and flags only when they are the two-octet form written by this class
+        body = packet[:self.header.length]
+        del packet[:self.header.length]
 
-        self.trustlevel = t
+        t = self.bytes_to_int(body[:2])
+        try:
+            self.trustlevel = t
+
+        except ValueError:
+            self.trustlevel = TrustLevel.Unknown
+
         self.trustflags = t
 
 
